@@ -35,6 +35,7 @@ type Profile struct {
 	DecayBias   float64         // probability that an asset decays (default 0.35)
 	MinAssets   int             // at least this many assets (C19: several assets and reward denoms per validator)
 	JailOnly    float64         // per run: downtime slash fraction 0, validators are jailed (leave the bonded set) without any value change and without a slash callback
+	NoLongAddr  bool            // every delegator has a key (the ABCI differential signs transactions)
 	PDrain      float64         // per block: start a drain (every known position of one asset exits in full over two blocks, then a new staking cycle begins)
 	PBurst      float64         // per block: start a packed scenario (same-block multi-denom/multi-validator exits, fan-in redelegations, ...)
 	PExport     float64         // per block: export/import (hard fork) at the block boundary
@@ -71,6 +72,7 @@ func genConfig(rng *RNG, p *Profile) Config {
 		c.Validators = append(c.Validators, ValCfg{SelfBond: bond, Commission: comm})
 	}
 	c.Delegators = rng.Range(2, 6)
+	c.LongAddrDelegator = !p.NoLongAddr && rng.Chance(0.3)
 	c.Natives = rng.Range(1, 3)
 	na := rng.Range(1, 4)
 	if p.MinAssets > na {
